@@ -417,6 +417,107 @@ theorem C15_complete_R3a_validate (input : DataType) (k : Kind) (a : TraitAttrCo
   rw [hsplit]
   exact C15_complete_R3a pre post a es herr
 
+/-- C15 (R3b, end to end): an infallible trait instruction that carries an error type is reported by `validate` -/
+theorem C15_complete_R3b_validate (input : DataType) (k : Kind) (a : TraitAttrCore) (t : TypePath)
+    (hk : k ∈ validateKinds) (ha : a ∈ input.attrs.iterForKindCore k false) (herr : a.errTy = some t) :
+    "Error type should not be specified for infallible instruction." ∈ validate input := by
+  unfold validate
+  apply validate_tail_ext
+  apply mem_foldl_of_mem _ _ _ _ (fun y es hm => ext_validateStructAttrs _ _ es _ hm)
+  refine mem_foldl_of_step _ _ _ _ k hk (fun y es hm => ext_validateStructAttrs _ _ es _ hm) (fun es => ?_)
+  obtain ⟨pre, post, hsplit⟩ := List.append_of_mem ha
+  rw [hsplit]
+  exact C15_complete_R3b pre post a es t herr
+
+/-- C15 (R2, end to end): two trait instructions of one kind and fallibility for the same counterpart — anywhere in the
+    list, whatever stands between them — are reported by `validate` -/
+theorem C15_complete_R2_validate (input : DataType) (k : Kind) (f : Bool) (pre mid post : List TraitAttrCore) (a a' : TraitAttrCore)
+    (hk : k ∈ validateKinds) (hl : input.attrs.iterForKindCore k f = pre ++ a :: (mid ++ a' :: post)) (h : (a'.ty == a.ty) = true) :
+    "Ident here must be unique." ∈ validate input := by
+  unfold validate
+  apply validate_tail_ext
+  cases f with
+  | true =>
+    refine mem_foldl_of_step _ _ _ _ k hk (fun y es hm => ext_validateStructAttrs _ _ es _ hm) (fun es => ?_)
+    rw [hl]
+    exact C15_complete_R2 pre mid post a a' es true h
+  | false =>
+    apply mem_foldl_of_mem _ _ _ _ (fun y es hm => ext_validateStructAttrs _ _ es _ hm)
+    refine mem_foldl_of_step _ _ _ _ k hk (fun y es hm => ext_validateStructAttrs _ _ es _ hm) (fun es => ?_)
+    rw [hl]
+    exact C15_complete_R2 pre mid post a a' es false h
+
+/-- C15 (R1, end to end): an input without any trait instruction is reported by `validate` -/
+theorem C15_complete_R1_validate (input : DataType) (h : input.attrs.attrs = []) :
+    "At least one trait instruction is expected." ∈ validate input := by
+  unfold validate
+  apply validate_tail_ext
+  apply mem_foldl_of_mem _ _ _ _ (fun y es hm => ext_validateStructAttrs _ _ es _ hm)
+  apply mem_foldl_of_mem _ _ _ _ (fun y es hm => ext_validateStructAttrs _ _ es _ hm)
+  apply ext_validateErrorInstrs
+  simp [h]
+
+/-- C15 (R6, end to end): an unknown name inside a type-level `#[o2o(..)]` is reported by `validate` -/
+theorem C15_complete_R6_validate (input : DataType) (pre post : List ErrInstr) (instr : String)
+    (h : input.attrs.errorInstrs = pre ++ .unrecognizedWithError instr :: post) :
+    ("Struct instruction '" ++ instr ++ "' is not supported.") ∈ validate input := by
+  unfold validate
+  apply validate_tail_ext
+  apply mem_foldl_of_mem _ _ _ _ (fun y es hm => ext_validateStructAttrs _ _ es _ hm)
+  apply mem_foldl_of_mem _ _ _ _ (fun y es hm => ext_validateStructAttrs _ _ es _ hm)
+  rw [h]
+  exact C15_complete_R6_unrecognized _ pre post instr _
+
+/-- the dedicated-instruction loop reports a counterpart that no trait instruction names, wherever it stands -/
+theorem dedicatedLoop_reports_unknown (pre post : List TypePath) (tp : TypePath) (typePaths : List TypePath)
+    (dup : Option (TypePath → String)) (es : Errors) (h : typePaths.contains tp = false) :
+    noMatch tp ∈ dedicatedLoop (pre ++ tp :: post) typePaths dup es := by
+  unfold dedicatedLoop
+  apply foldl_snd_mem_of_step
+  · intro x s es m hm
+    simp only
+    repeat' split
+    all_goals ext_tac
+  · intro s es
+    simp only [h, Bool.not_false, if_true]
+    repeat' split
+    all_goals self_tac
+
+/-- C15 (R4, end to end, `where_clause`): a `#[where_clause(Type| ..)]` dedicated to a type that no trait instruction
+    names is reported by `validate`, wherever it stands among the where-clauses -/
+theorem C15_complete_R4_where_validate (input : DataType) (wa : WhereAttr) (tp : TypePath)
+    (hwa : wa ∈ input.attrs.whereAttrs) (hty : wa.containerTy = some tp)
+    (hunk : (input.attrs.attrs.map (·.core.ty)).contains tp = false) :
+    noMatch tp ∈ validate input := by
+  have hmem : tp ∈ input.attrs.whereAttrs.filterMap (·.containerTy) := List.mem_filterMap.mpr ⟨wa, hwa, hty⟩
+  obtain ⟨pre, post, hsplit⟩ := List.append_of_mem hmem
+  unfold validate
+  simp only
+  have hw : ∀ es, noMatch tp ∈ validateWhereAttrs input.attrs.whereAttrs (input.attrs.attrs.map (·.core.ty)) es := by
+    intro es
+    unfold validateWhereAttrs
+    simp only
+    rw [hsplit]
+    exact dedicatedLoop_reports_unknown pre post tp _ _ _ hunk
+  have h3 := hw (validateChildParentsAttrs input.attrs.childParentsAttrs (input.attrs.attrs.map (·.core.ty))
+    (validateKinds.foldl (fun es k => validateGhostAttrs k input.attrs.ghostsAttrs (input.attrs.attrs.map (·.core.ty)) es)
+      (validateKinds.foldl (fun es k => validateStructAttrs (input.attrs.iterForKindCore k true) true es)
+        (validateKinds.foldl (fun es k => validateStructAttrs (input.attrs.iterForKindCore k false) false es)
+          (validateErrorInstrs (match input with | .enum _ => true | .struct _ => false) input.attrs.errorInstrs
+            (if input.attrs.attrs.isEmpty then ["At least one trait instruction is expected."] else []))))))
+  have h4 := mem_foldl_of_mem input.members
+    (validateMember input (match input with | .enum _ => true | .struct _ => false) (input.attrs.attrs.map (·.core.ty)) (attrsByKind input.attrs)) _ _
+    (fun member es hm => ext_validateMember _ _ _ _ member es _ hm) h3
+  cases input with
+  | struct s => exact ext_validateFields _ _ _ _ _ h4
+  | enum e =>
+    have h5 := mem_foldl_of_mem ((DataType.enum e).attrs.ghostsAttrs.flatMap (fun x => x.attr.ghostData)) (fun es g => enumGhostIdentPass g es) _ _
+      (fun g es hm => by
+        unfold enumGhostIdentPass
+        repeat' split
+        all_goals first | exact mem_insert_of_mem _ _ _ hm | exact hm) h4
+    exact mem_foldl_of_mem _ _ _ _ (fun v es hm => ext_validateVariantFields v _ es _ hm) h5
+
 /-! ### level dispatch (*tables*, regenerated): which names are instructions at which level, and what a name written at
 the wrong level is answered with -/
 
